@@ -174,3 +174,11 @@ Definition wf_b (evs : list event) (leads : list group) : bool :=
   let ds := decls_of evs in
   wf_group_b leads [] evs && forallb (wf_doc_b leads) ds && forallb (wf_cmt_b leads) ds
   && wf_cmt_line_b ds && wf_lead_unique_b leads && wf_attached_b evs leads ds.
+
+(* Known-finding class [name_on_continuation_line]: a declaration with several names of which
+   one is not on the declaration's first line (`A,` newline `B int`).  Doc / Comment look the
+   position of the NAME up, so such a name gets neither the declaration's doc nor its trailing
+   comment.  The attribution theorems speak about the line of the declaration; this classifier is
+   the negation of the guard under which they extend to every name. *)
+Definition name_on_continuation_line (evs : list event) : bool :=
+  existsb (fun d => existsb (fun l => negb (Z.eqb l (p_line (d_pos d)))) (d_names d)) (decls_of evs).
